@@ -67,8 +67,9 @@ let snapshot (m : mfs) : string =
         (int_of_n e.e_mode) (int_of_n e.e_uid) (int_of_n e.e_gid) files)
       (api_mfs_entries m) in
   let data = List.map (fun (k, d) -> rp k ^ ":" ^ hex_of_bytes d) (api_mfs_data m) in
-  Printf.sprintf "cwd=%s;root=%s;E{%s};D{%s}" (rp m.m_cwd) (rp m.m_root)
+  Printf.sprintf "cwd=%s;root=%s;E{%s};D{%s};wf=%d" (rp m.m_cwd) (rp m.m_root)
     (String.concat ";" (List.sort compare ents)) (String.concat ";" (List.sort compare data))
+    (if api_wf_b m then 1 else 0)
 
 (* run a history from the fresh filesystem: per-op results, then the final state *)
 let run_hist (env : (n list * n list) list) (ops : string list) : string =
@@ -108,3 +109,32 @@ let bfs (env : (n list * n list) list) (alphabet : string list) (depth : int) (m
           | _ -> ()) parsed
   done;
   Printf.eprintf "bfs: %d states\n" !nstates
+
+(* parse a snapshot string (either side's) back into a mirror state *)
+let parse_snapshot (s : string) : mfs =
+  let find_section tag close =
+    let i = Str_find.find s tag in
+    let j = String.index_from s (i + String.length tag) close in
+    String.sub s (i + String.length tag) (j - i - String.length tag) in
+  let field name =
+    let tag = name ^ "=" in
+    let i = Str_find.find s tag in
+    let j = try String.index_from s i ';' with Not_found -> String.length s in
+    String.sub s (i + String.length tag) (j - i - String.length tag) in
+  let rp_of h = api_rpath_of_string (arg_str h) in
+  let items sec = if sec = "" then [] else String.split_on_char ';' sec in
+  let ents = List.map (fun it ->
+      match String.split_on_char ':' it with
+      | [k; p; alt; rel; dfl; mode; uid; gid; files] ->
+          let fs = if files = "-" then None
+            else let inner = String.sub files 1 (String.length files - 2) in
+              Some (api_set_of_list (if inner = "" then [] else List.map arg_str (String.split_on_char ',' inner))) in
+          (rp_of k, api_mk_entry (rp_of p) (if alt = "" then None else Some (rp_of alt)) (arg_str rel)
+                      (dfl.[0] = '1') (dfl.[1] = '1') (dfl.[2] = '1')
+                      (n_of_int (int_of_string mode)) (n_of_int (int_of_string uid)) (n_of_int (int_of_string gid)) false fs)
+      | _ -> failwith "snapshot entry") (items (find_section "E{" '}')) in
+  let data = List.map (fun it ->
+      match String.split_on_char ':' it with
+      | [k; d] -> (rp_of k, bytes_of_hex d)
+      | _ -> failwith "snapshot data") (items (find_section "D{" '}')) in
+  api_mfs_of_lists (rp_of (field "cwd")) (rp_of (field "root")) ents data
